@@ -171,6 +171,12 @@ let handle_src (w : Stdlib.String.t list) : Stdlib.String.t =
       (match Model.src_main (buf ()) (hbuf ()) opts fopens (n_of_int (sched_seed ())) with
        | SOk (rc, outs) -> Printf.sprintf "RC %d streams=%s" (int_of_z rc) (String.concat "|" (List.map hex outs))
        | SErr w -> "ERR " ^ coqstr w)
+  | "encsnap" :: cm :: hm :: t :: k :: seed :: plain :: _ ->
+      (* contents of the output stream after every machine step of the translated encryption that changed it *)
+      (match Model.src_encrypt_snapshots (buf ()) (hbuf ()) (nat_of_int (int_of_string t)) (n_of_int (int_of_string cm)) (n_of_int (int_of_string hm))
+               (unhex plain) (unhex k) (unhex seed) (n_of_int (sched_seed ())) with
+       | SOk l -> "OK " ^ String.concat "," (List.map hex l)
+       | SErr w -> "ERR " ^ coqstr w)
   | ["hist"; ops] ->
       (* library-level operations one after the other in ONE process image (the process layer of SrcRun5 is carried over):
          enc,CM,HM,T,KEY,SEED,PLAIN ; dec,T,KEY,FILE ; ver,T,KEY,FILE -- results in the format of the single operations *)
